@@ -462,6 +462,36 @@ func cmdCheck(args []string) int {
 		wg.Wait()
 	}
 
+	// 3b. native fuzzing (thorough tier only)
+	fuzzExecs := 0
+	var fuzzFailures []*harness.Replay
+	if *tier == "thorough" && len(spec.FuzzTargets) > 0 && *casesFlag == 0 {
+		secs := spec.FuzzSeconds
+		if secs <= 0 {
+			secs = 180
+		}
+		for _, target := range spec.FuzzTargets {
+			outFile := filepath.Join(statsDir, fmt.Sprintf("%s-%s-%d.fuzz.json", id, target, os.Getpid()))
+			os.Remove(outFile)
+			cmd := exec.Command("go", "test", "-tags", "verif", "-run", "^$", "-fuzz", "^"+target+"$", "-fuzztime", fmt.Sprintf("%ds", secs), "./checks")
+			cmd.Dir = root
+			cmd.Env = append(goEnv(), "VERIF_FUZZ_OUT="+outFile, "VERIF_ROOT="+root, "VERIF_TIER=thorough")
+			var buf bytes.Buffer
+			cmd.Stdout, cmd.Stderr = &buf, &buf
+			err := cmd.Run()
+			out := buf.String()
+			fuzzExecs += lastExecs(out)
+			if rp, lerr := harness.LoadReplay(outFile); lerr == nil {
+				fuzzFailures = append(fuzzFailures, rp)
+				os.Remove(outFile)
+			} else if err != nil && !strings.Contains(out, "PASS") {
+				inconclusiveFuzz(target, out)
+			}
+			// crashers are converted to replays; do not leave a native corpus behind
+			os.RemoveAll(filepath.Join(root, "checks", "testdata", "fuzz", target))
+		}
+	}
+
 	// 4. merge
 	merged := harness.ShardStats{Classes: map[string]int{}, Totals: map[string]int{}, Excluded: map[string]int{}}
 	hashes := map[uint64]struct{}{}
@@ -514,6 +544,8 @@ func cmdCheck(args []string) int {
 			fmt.Printf("INCONCLUSIVE: shard %d exited with %d without a recorded violation (timeout=%v)\n%s\n", i, o.res.exit, o.res.timedOut, tail(o.res.out, 40))
 		}
 	}
+
+	failures = append(failures, fuzzFailures...)
 
 	// 5. classify failures: known finding vs new violation
 	os.MkdirAll(filepath.Join(root, "replays", id), 0o755)
@@ -578,6 +610,8 @@ func cmdCheck(args []string) int {
 		"cases_requested":     total,
 		"excluded_known":      merged.Excluded,
 		"exhaustive":          false,
+		"native_fuzz_execs":   fuzzExecs,
+		"native_fuzz_targets": spec.FuzzTargets,
 	}
 	ev := evidence{
 		PropertyID:  id,
@@ -611,6 +645,24 @@ func cmdCheck(args []string) int {
 		return 2
 	}
 	return 0
+}
+
+// lastExecs parses the total number of executions from go test -fuzz output.
+func lastExecs(out string) int {
+	n := 0
+	for _, l := range strings.Split(out, "\n") {
+		if i := strings.Index(l, "execs: "); i >= 0 {
+			var v int
+			if _, err := fmt.Sscanf(l[i+7:], "%d", &v); err == nil && v > n {
+				n = v
+			}
+		}
+	}
+	return n
+}
+
+func inconclusiveFuzz(target, out string) {
+	fmt.Printf("note: native fuzz target %s ended abnormally without a recorded violation:\n%s\n", target, tail(out, 15))
 }
 
 // crashSummary extracts the panic message and the first library frames.
